@@ -94,10 +94,33 @@ class C19(Prop):
     def nontrivial(self, case, impl):
         return " L" in impl or "|L" in impl
 
+    def prepare(self, cases, impl_lines):
+        """The direct oracle: what the LIBRARY computed for each query (harness `query`,
+        in-process), rendered by the model of the printing loop (`render`). A difference
+        between that and what the binary printed is a printing fault on that very query."""
+        qlines = ["query " + c.line.split(" ")[1] for c in cases]
+        rc, lib, err = C.run_lines(C.harness_bin(False), qlines, watchdog=self.watchdog_s)
+        req = []
+        for c, r in zip(cases, lib):
+            mode = c.line.split(" ")[2]
+            req.append(f"render {C.hexs(r)} {mode}")
+        out = C.run_driver(req)
+        self._expected = {}
+        for c, r, o in zip(cases, lib, out):
+            if r.startswith("R ") and "PANIC" not in r and "UNSUPPORTED" not in r and o.startswith("O "):
+                self._expected[id(c)] = (o, r)
+
     def spec_verdict(self, case, impl, spec):
-        # decision logic stated outright: checked against the library results via the model line,
-        # which the engine compares; here only the exit status
-        return None if impl.endswith("X0") else f"binary exited abnormally: {impl[-10:]}"
+        if not impl.endswith("X0"):
+            return f"binary exited abnormally: {impl[-10:]}"
+        exp = self._expected.get(id(case))
+        if exp is None:
+            return None
+        if self.observable(impl) != self.observable(exp[0]):
+            def show(line):
+                return [C.unhex(it[1:]) if it.startswith("L") else it for it in line.split(" ")[1].split("|")]
+            return f"binary printed {show(impl)} but the library computed {exp[1][:120]}, which prints as {show(exp[0])}"
+        return None
 
     def cases(self, rng, tier):
         from . import exprgen as G
@@ -113,6 +136,22 @@ class C19(Prop):
         for t in texts:
             for mode in ("exact", "decimal"):
                 out.append(Case(f"cli {C.hexs(t)} {mode}", "fixed", t))
+        # every unit whose plural spelling differs from its singular, at values that are one,
+        # a unit fraction 1/n, another fraction, and an integer (the plural is decided by
+        # "the value is not one", nothing else)
+        import re
+        tbl = (C.LEAN / "Anything" / "Generated" / "Tables.lean").read_text()
+        def chars(x):
+            return "".join(chr(int(n)) for n in re.findall(r"Char.ofNat (\d+)", x))
+        plural_units = []
+        for m in re.finditer(r"sing := \[([^\]]*)\], plur := \[([^\]]*)\]", tbl):
+            sg, pl = chars(m.group(1)), chars(m.group(2))
+            if sg != pl and sg.isascii() and sg.replace(" ", "").isalpha():
+                plural_units.append(sg)
+        for u in plural_units:
+            for val in ("1", "0.5", "0.25", "0.1", "0.125", "0.75", "2", "1.5", "-1", "-0.5"):
+                for mode in ("exact", "decimal"):
+                    out.append(Case(f"cli {C.hexs(val + ' ' + u)} {mode}", "plural-sweep", f"{val} {u}"))
         n = 120 if tier == "quick" else 3000
         for i in range(n):
             k = rng.below(4)
